@@ -8,6 +8,8 @@
 //! each, message prefixed with the property id. Runs on a scaled MAX_ENR_SIZE (variant).
 use crate::mkey::*;
 use crate::refmodel::*;
+#[allow(unused_imports)]
+use crate::mkey::MPub;
 use crate::sym;
 use enr::{Enr, Error, NodeId};
 
@@ -113,7 +115,6 @@ pub fn step_obligations(
     let after = snap(e);
     let kind = err_kind(res);
     let ok = kind == 0;
-    let verifies = e.verify();
     let size = e.size();
     let nid_from_pk = sym::eq32(&NodeId::from(e.public_key()).raw(), &after.node_id);
     let pairs_model = pairs_are(e, want);
@@ -130,13 +131,13 @@ pub fn step_obligations(
     vcover!(kind == 3, "Err(SigningError)");
     vcover!(ok && signer.id != before.node_id[0], "re-keyed");
     // ---- C05: Ok => valid record, re-keyed to the signer
-    assert!(!ok || verifies, "C05: a successfully updated record verifies");
     assert!(!ok || sym::eq32(&after.node_id, &hdigest(&[signer.id])), "C05: after an update the node id is the hash of the signer's public key");
+    // "verifies" = this obligation + `a_verify_iff` (verify() accepts exactly records whose signature
+    // is the carried key's MAC over their content), see DESIGN.md 4/C05
     assert!(!ok || sig_is_signers, "C05: after an update the signature is the signer's signature over the new content");
     assert!(!ok || size <= MAXSZ, "C05: a successfully updated record fits the size limit");
     // ---- C06: Err => untouched
     assert!(ok || unchanged, "C06: a failed update leaves seq, node id, signature and pairs unchanged");
-    assert!(ok || verifies, "C06: a record still verifies after a failed update");
     assert!(ok || size == pre_len, "C06: a failed update leaves the encoding length unchanged");
     // ---- C07
     assert!(!ok || after.seq == want_seq, "C07: a successful update sets the sequence number to exactly the expected value");
@@ -170,7 +171,8 @@ pub fn causes_for(pre_sig_len: usize, seq: u64, signer: &MKey, want: &Pairs, bum
 /// set_tcp4 on {id, k}: typed setter through insert / insert_raw_rlp
 #[cfg_attr(kani, kani::proof)]
 #[cfg_attr(kani, kani::stub(enr::digest, digest_stub))]
-#[cfg_attr(kani, kani::stub(std::string::String::from_utf8_lossy, lossy_stub))]
+#[cfg_attr(kani, kani::stub(enr::Enr::id, id_stub))]
+#[cfg_attr(kani, kani::stub(<[u8]>::to_vec, to_vec_stub))]
 pub fn u_set_tcp4() {
     let seq = sym::u64();
     let pk = any_pk();
@@ -199,12 +201,13 @@ pub fn u_set_tcp4() {
     core::mem::forget(e);
 }
 
-// ---- cost probes (development only, not registered) ----
+
+/// insert_raw_rlp of a custom key with an arbitrary (possibly malformed) raw value of 0..=3 bytes
 #[cfg_attr(kani, kani::proof)]
 #[cfg_attr(kani, kani::stub(enr::digest, digest_stub))]
-#[cfg_attr(kani, kani::stub(std::string::String::from_utf8_lossy, lossy_stub))]
+#[cfg_attr(kani, kani::stub(enr::Enr::id, id_stub))]
 #[cfg_attr(kani, kani::stub(<[u8]>::to_vec, to_vec_stub))]
-pub fn zp_a() {
+pub fn u_insert_raw() {
     let seq = sym::u64();
     let pk = any_pk();
     let kraw0 = [0x81u8, pk];
@@ -212,18 +215,218 @@ pub fn zp_a() {
     let p = pre_state(pk, seq, &pre);
     let mut e = p.e;
     let signer = any_key();
-    let port = sym::u16();
-    let r = e.set_tcp4(port, &signer);
-    let ok = r.is_ok();
-    let s1 = e.seq();
+    let before = snap(&e);
+    let raw: [u8; 3] = sym::bytes::<3>();
+    let n = sym::usize();
+    sym::assume(n <= 3);
+    let valid = ref_single_item(&raw[..n]);
+    let r = e.insert_raw_rlp("x", mk_bytes(&raw[..n]), &signer);
+    let kraw = [0x81u8, signer.id];
+    let want: [(&[u8], &[u8]); 3] = [(b"id", &ID_RAW), (KNAME, &kraw), (b"x", &raw[..n])];
+    let prev_none = matches!(r, Ok(None)) || r.is_err();
+    let res = r.map(|_| ());
+    let kind = err_kind(&res);
+    let want_seq = seq.wrapping_add(1);
+    let causes = causes_for(p.sig_len, seq, &signer, &want, true, want_seq);
+    vcover!(kind == 5, "Err(InvalidRlpData)");
+    vcover!(kind == 0 && n == 3, "three-byte raw value stored");
+    // C03/C04: the deprecated payload getter must not panic on anything the library stored
+    #[allow(deprecated)]
+    let g = e.get("x");
+    let g_ok = g.is_some() == (kind == 0);
+    core::mem::forget(g);
+    step_obligations(&e, &before, &pre, &res, &signer, &want, want_seq, &causes, true);
+    assert!(prev_none, "C08: an insert on an absent key returns no previous value");
+    assert!(valid || kind == 5, "C08: a raw value that is not exactly one RLP item is refused with InvalidRlpData");
+    assert!(kind != 5 || !valid, "C08: InvalidRlpData is reported only for a malformed value");
+    assert!(kind != 4, "C08: a custom key never reports an identity-scheme error");
+    assert!(g_ok, "C04: a stored value is readable through get()");
     core::mem::forget(e);
-    assert!(!ok || s1 == seq.wrapping_add(1), "C07: seq+1");
 }
+
+/// set_tcp4 on a record that already has a tcp entry: replaces exactly that value, returns the old one
 #[cfg_attr(kani, kani::proof)]
 #[cfg_attr(kani, kani::stub(enr::digest, digest_stub))]
-#[cfg_attr(kani, kani::stub(std::string::String::from_utf8_lossy, lossy_stub))]
+#[cfg_attr(kani, kani::stub(enr::Enr::id, id_stub))]
 #[cfg_attr(kani, kani::stub(<[u8]>::to_vec, to_vec_stub))]
-pub fn zp_b() {
+pub fn u_replace_tcp4() {
+    let seq = sym::u64();
+    let pk = any_pk();
+    let kraw0 = [0x81u8, pk];
+    let old = sym::u16();
+    let (oe, on) = ref_port_enc(old);
+    let pre: [(&[u8], &[u8]); 3] = [(b"id", &ID_RAW), (KNAME, &kraw0), (b"tcp", &oe[..on])];
+    let p = pre_state(pk, seq, &pre);
+    let mut e = p.e;
+    let signer = any_key();
+    let before = snap(&e);
+    let port = sym::u16();
+    let r = e.set_tcp4(port, &signer);
+    let (pe, pn) = ref_port_enc(port);
+    let kraw = [0x81u8, signer.id];
+    let want: [(&[u8], &[u8]); 3] = [(b"id", &ID_RAW), (KNAME, &kraw), (b"tcp", &pe[..pn])];
+    let prev_ok = matches!(r, Ok(Some(x)) if x == old) || r.is_err();
+    let res = r.map(|_| ());
+    let got_port = e.tcp4();
+    let want_seq = seq.wrapping_add(1);
+    let causes = causes_for(p.sig_len, seq, &signer, &want, true, want_seq);
+    step_obligations(&e, &before, &pre, &res, &signer, &want, want_seq, &causes, true);
+    assert!(prev_ok, "C08: a typed setter returns the previous value of the key");
+    assert!(res.is_err() || got_port == Some(port), "C14: a port set through the typed setter reads back as the value set");
+    assert!(res.is_ok() || got_port == Some(old), "C06: a failed setter leaves the old value readable");
+    core::mem::forget(e);
+}
+
+/// set_seq: sets exactly the requested number, re-keys to the signer, atomic
+#[cfg_attr(kani, kani::proof)]
+#[cfg_attr(kani, kani::stub(enr::digest, digest_stub))]
+#[cfg_attr(kani, kani::stub(enr::Enr::id, id_stub))]
+#[cfg_attr(kani, kani::stub(<[u8]>::to_vec, to_vec_stub))]
+pub fn u_set_seq() {
+    let seq = sym::u64();
+    let pk = any_pk();
+    let kraw0 = [0x81u8, pk];
+    let port = sym::u16();
+    let (oe, on) = ref_port_enc(port);
+    let pre: [(&[u8], &[u8]); 3] = [(b"id", &ID_RAW), (KNAME, &kraw0), (b"tcp", &oe[..on])];
+    let p = pre_state(pk, seq, &pre);
+    let mut e = p.e;
+    let signer = any_key();
+    let before = snap(&e);
+    let new_seq = sym::u64();
+    let res = e.set_seq(new_seq, &signer);
+    let kraw = [0x81u8, signer.id];
+    let want: [(&[u8], &[u8]); 3] = [(b"id", &ID_RAW), (KNAME, &kraw), (b"tcp", &oe[..on])];
+    let causes = causes_for(p.sig_len, seq, &signer, &want, false, new_seq);
+    vcover!(res.is_ok() && new_seq == u64::MAX, "set to 2^64-1");
+    vcover!(res.is_ok() && new_seq < seq, "set to a smaller number");
+    step_obligations(&e, &before, &pre, &res, &signer, &want, new_seq, &causes, false);
+    assert!(err_kind(&res) != 2 && err_kind(&res) != 4 && err_kind(&res) != 5, "C08: set_seq reports only size or signing errors");
+    core::mem::forget(e);
+}
+
+/// remove_key of a present key
+#[cfg_attr(kani, kani::proof)]
+#[cfg_attr(kani, kani::stub(enr::digest, digest_stub))]
+#[cfg_attr(kani, kani::stub(enr::Enr::id, id_stub))]
+#[cfg_attr(kani, kani::stub(<[u8]>::to_vec, to_vec_stub))]
+pub fn u_remove_key() {
+    let seq = sym::u64();
+    let pk = any_pk();
+    let kraw0 = [0x81u8, pk];
+    let port = sym::u16();
+    let (oe, on) = ref_port_enc(port);
+    let pre: [(&[u8], &[u8]); 3] = [(b"id", &ID_RAW), (KNAME, &kraw0), (b"tcp", &oe[..on])];
+    let p = pre_state(pk, seq, &pre);
+    let mut e = p.e;
+    let signer = any_key();
+    let before = snap(&e);
+    let res = e.remove_key("tcp", &signer);
+    let kraw = [0x81u8, signer.id];
+    let want: [(&[u8], &[u8]); 2] = [(b"id", &ID_RAW), (KNAME, &kraw)];
+    let want_seq = seq.wrapping_add(1);
+    let causes = causes_for(p.sig_len, seq, &signer, &want, true, want_seq);
+    let gone = e.tcp4().is_none();
+    step_obligations(&e, &before, &pre, &res, &signer, &want, want_seq, &causes, false);
+    assert!(res.is_err() || gone, "C08: a removal deletes the named key");
+    assert!(res.is_ok() || !gone, "C06: a failed removal leaves the key in place");
+    assert!(err_kind(&res) != 4 && err_kind(&res) != 5, "C08: remove_key reports only size, sequence or signing errors");
+    core::mem::forget(e);
+}
+
+/// set_udp_socket with an IPv4 address: writes ip and udp only, one sequence-number step
+#[cfg_attr(kani, kani::proof)]
+#[cfg_attr(kani, kani::stub(enr::digest, digest_stub))]
+#[cfg_attr(kani, kani::stub(enr::Enr::id, id_stub))]
+#[cfg_attr(kani, kani::stub(<[u8]>::to_vec, to_vec_stub))]
+pub fn u_set_udp_socket4() {
+    let seq = sym::u64();
+    // keeps every candidate encoding (pre-state + ip + udp) within the 40-byte buffer capacity
+    sym::assume(seq < (1u64 << 32));
+    let pk = any_pk();
+    let kraw0 = [0x81u8, pk];
+    let pre: [(&[u8], &[u8]); 2] = [(b"id", &ID_RAW), (KNAME, &kraw0)];
+    let p = pre_state(pk, seq, &pre);
+    let mut e = p.e;
+    let signer = any_key();
+    let before = snap(&e);
+    let ip: [u8; 4] = sym::bytes::<4>();
+    let port = sym::u16();
+    let sock = std::net::SocketAddr::V4(std::net::SocketAddrV4::new(std::net::Ipv4Addr::from(ip), port));
+    let res = e.set_udp_socket(sock, &signer);
+    let (pe, pn) = ref_port_enc(port);
+    let ipraw = [0x84u8, ip[0], ip[1], ip[2], ip[3]];
+    let kraw = [0x81u8, signer.id];
+    let want: [(&[u8], &[u8]); 4] = [(b"id", &ID_RAW), (b"ip", &ipraw), (KNAME, &kraw), (b"udp", &pe[..pn])];
+    let want_seq = seq.wrapping_add(1);
+    let causes = causes_for(p.sig_len, seq, &signer, &want, true, want_seq);
+    let sock_back = e.udp4_socket();
+    let others_absent = e.tcp4().is_none() && e.ip6().is_none() && e.udp6().is_none() && e.tcp6().is_none();
+    step_obligations(&e, &before, &pre, &res, &signer, &want, want_seq, &causes, true);
+    assert!(res.is_err() || sock_back == Some(std::net::SocketAddrV4::new(std::net::Ipv4Addr::from(ip), port)),
+            "C14: a socket set through the socket setter reads back as the value set");
+    assert!(others_absent, "C08: a socket setter writes only its own family's ip and port keys");
+    assert!(err_kind(&res) != 4 && err_kind(&res) != 5, "C08: a socket setter reports only size, sequence or signing errors");
+    core::mem::forget(e);
+}
+
+/// remove_insert: removes tcp, inserts udp with an arbitrary payload of 0..=2 bytes (the API takes
+/// payloads and stores them as RLP byte strings); one sequence-number step, returns old values
+#[cfg_attr(kani, kani::proof)]
+#[cfg_attr(kani, kani::stub(enr::digest, digest_stub))]
+#[cfg_attr(kani, kani::stub(enr::Enr::id, id_stub))]
+#[cfg_attr(kani, kani::stub(<[u8]>::to_vec, to_vec_stub))]
+pub fn u_remove_insert() {
+    let seq = sym::u64();
+    let pk = any_pk();
+    let kraw0 = [0x81u8, pk];
+    let old = sym::u16();
+    let (oe, on) = ref_port_enc(old);
+    let pre: [(&[u8], &[u8]); 3] = [(b"id", &ID_RAW), (KNAME, &kraw0), (b"tcp", &oe[..on])];
+    let p = pre_state(pk, seq, &pre);
+    let mut e = p.e;
+    let signer = any_key();
+    let before = snap(&e);
+    let pl: [u8; 2] = sym::bytes::<2>();
+    let n = sym::usize();
+    sym::assume(n <= 2);
+    // the payload stored as an RLP byte string
+    let mut item = Buf64::new();
+    item.put_str(&pl[..n]);
+    let item_is_port = ref_port(item.as_slice()).is_some();
+    let rm: [&[u8]; 1] = [b"tcp"];
+    let ins: [(&[u8], &[u8]); 1] = [(b"udp", &pl[..n])];
+    let r = e.remove_insert(rm.iter(), ins.iter().map(|(k, v)| (*k, *v)), &signer);
+    let kraw = [0x81u8, signer.id];
+    let want: [(&[u8], &[u8]); 3] = [(b"id", &ID_RAW), (KNAME, &kraw), (b"udp", item.as_slice())];
+    let ret_ok = match &r {
+        Ok((removed, inserted)) => {
+            removed.len() == 1 && inserted.len() == 1 && inserted[0].is_none()
+                && matches!(&removed[0], Some(b) if b.as_ref() == &oe[..on])
+        }
+        Err(_) => true,
+    };
+    let res = r.map(|x| core::mem::forget(x));
+    let kind = err_kind(&res);
+    let want_seq = seq.wrapping_add(1);
+    let causes = causes_for(p.sig_len, seq, &signer, &want, true, want_seq);
+    vcover!(kind == 5, "Err(InvalidRlpData)");
+    vcover!(kind == 0 && n == 2, "two-byte port inserted");
+    step_obligations(&e, &before, &pre, &res, &signer, &want, want_seq, &causes, false);
+    assert!(ret_ok, "C08: remove_insert returns the removed and the overwritten values");
+    assert!(item_is_port || kind == 5, "C08: an ill-typed value for a reserved key is refused with InvalidRlpData");
+    assert!(kind != 5 || !item_is_port, "C08: InvalidRlpData is reported only for an ill-typed value");
+    assert!(kind != 4, "C08: remove_insert without an id pair never reports an identity-scheme error");
+    core::mem::forget(e);
+}
+
+/// set_public_key to an arbitrary key of the scheme, signed by `signer`: the record ends up with
+/// the signer's key (setting it to the signer's own key succeeds)
+#[cfg_attr(kani, kani::proof)]
+#[cfg_attr(kani, kani::stub(enr::digest, digest_stub))]
+#[cfg_attr(kani, kani::stub(enr::Enr::id, id_stub))]
+#[cfg_attr(kani, kani::stub(<[u8]>::to_vec, to_vec_stub))]
+pub fn u_set_public_key() {
     let seq = sym::u64();
     let pk = any_pk();
     let kraw0 = [0x81u8, pk];
@@ -231,26 +434,15 @@ pub fn zp_b() {
     let p = pre_state(pk, seq, &pre);
     let mut e = p.e;
     let signer = any_key();
-    let port = sym::u16();
-    let r = e.set_tcp4(port, &signer);
-    let ok = r.is_ok();
-    let v = e.verify();
+    let before = snap(&e);
+    let newpk = MPub(any_pk());
+    let res = e.set_public_key(&newpk, &signer);
+    let kraw = [0x81u8, signer.id];
+    let want: [(&[u8], &[u8]); 2] = [(b"id", &ID_RAW), (KNAME, &kraw)];
+    let want_seq = seq.wrapping_add(1);
+    let causes = causes_for(p.sig_len, seq, &signer, &want, true, want_seq);
+    vcover!(res.is_ok() && newpk.0 == signer.id, "set to the signer's own key");
+    step_obligations(&e, &before, &pre, &res, &signer, &want, want_seq, &causes, true);
+    assert!(err_kind(&res) != 4 && err_kind(&res) != 5, "C08: setting a valid public key never reports identity-scheme or RLP errors");
     core::mem::forget(e);
-    assert!(v, "C05: verifies");
-    assert!(ok || !ok, "x");
-}
-#[cfg_attr(kani, kani::proof)]
-#[cfg_attr(kani, kani::stub(enr::digest, digest_stub))]
-#[cfg_attr(kani, kani::stub(std::string::String::from_utf8_lossy, lossy_stub))]
-#[cfg_attr(kani, kani::stub(<[u8]>::to_vec, to_vec_stub))]
-pub fn zp_c() {
-    let seq = sym::u64();
-    let pk = any_pk();
-    let kraw0 = [0x81u8, pk];
-    let pre: [(&[u8], &[u8]); 2] = [(b"id", &ID_RAW), (KNAME, &kraw0)];
-    let p = pre_state(pk, seq, &pre);
-    let e = p.e;
-    let v = e.verify();
-    core::mem::forget(e);
-    assert!(v, "C05: pre-state verifies");
 }
